@@ -4,7 +4,7 @@ from .. import common, gen, oracles, ser, mergecorr
 from . import base
 
 THEOREMS = ['C06_splice_is_concatenation', 'C06_nested_include', 'C06_nested_include_same_data', 'C06_no_stream_is_identity', 'C06_lookup_order',
-            'C06_missing_files_named', 'C06_found_files_in_order']
+            'C06_missing_files_named', 'C06_found_files_in_order', 'C06_path_spelling_irrelevant', 'C06_path_parent']
 DOCPROF = gen.Profile(p_tag=0.25, tags=['!force', '!weak', '!del', '!merge'], p_seq=0.35, p_map=0.35, max_depth=3)
 
 
@@ -260,6 +260,40 @@ def run(rep, tier, rng):
     rep.checker_cmds.append(cmd)
     rep.oblige(f'T2 correspondence Model.Stream.run_lookup = IncludeNode lookup on all {len(litems)} placements of the included files over the two lookup directories', not bad and not errors,
                (f'{len(bad)} disagreements, first: {lcases[bad[0]]}' if bad else '') + (errors[0]['log'][-500:] if errors else ''))
+    # correspondence of the path arithmetic: PathNode evaluation / os.path vs Model.PathRef on random spellings (no files needed)
+    from awesomeyaml.builder import Builder
+    from awesomeyaml.config import Config
+    names = ['a', 'b', 'conf', 'x.yaml', 'data', 'w']
+
+    def comps_term(parts, tab):
+        return ser.coq_list('Up' if c == '..' else 'Nm %d' % tab.setdefault(c, 1 + len(tab)) for c in parts)
+
+    def pterm(text, tab):
+        return f'(mkP {"true" if text.startswith("/") else "false"} {comps_term([c for c in text.split("/") if c not in ("", ".")], tab)})'
+    pitems, litems2 = [], []
+    for _ in range(300 if tier == 'quick' else 4000):
+        parts = [rng.choice(names + ['..', '..']) for _ in range(rng.randint(1, 4))] + ['f.yaml']
+        src = ('/' if rng.random() < 0.4 else '') + '/'.join(parts)
+        n = rng.randint(0, 5)
+        args = [rng.choice(['data', 'w', '..']) for _ in range(rng.randint(0, 3))]
+        b = Builder()
+        b.add_source('p: !path:parent(%d) [%s]\n' % (n, ', '.join(f'"{a}"' for a in args)), raw_yaml=True, filename=src)
+        got = str(Config(b.build())['p'])
+        tab = {}
+        pitems.append(f'({pterm(src, tab)}, {n}%nat, {comps_term(args, tab)}, {pterm(got, tab)})')
+        cwd = '/' + '/'.join(rng.choice(names) for _ in range(rng.randint(0, 3)))
+        loc = os.path.normpath(os.path.join(cwd, src))
+        tab = {}
+        litems2.append(f'({comps_term([c for c in cwd.split("/") if c], tab)}, {pterm(src, tab)}, {comps_term([c for c in loc.split("/") if c], tab)})')
+    phdr = 'From AY Require Import Model.Eq Model.PathRef.\nOpen Scope Z_scope.\n'
+    bad, errors, wall, cmd = common.run_case_files('c06p', phdr, pitems, 'fun c : ppath * nat * list comp * ppath => ppath_eqb (parent_ref (fst (fst (fst c))) (snd (fst (fst c))) (snd (fst c))) (snd c)')
+    rep.checker_cmds.append(cmd)
+    rep.oblige(f'T3 correspondence Model.PathRef.parent_ref = evaluated !path:parent(n) node on {len(pitems)} source-name spellings (absolute, relative, with ..)', not bad and not errors,
+               (f'{len(bad)} disagreements, first {pitems[bad[0]]}' if bad else '') + (errors[0]['log'][-400:] if errors else ''))
+    bad, errors, wall, cmd = common.run_case_files('c06q', phdr, litems2, 'fun c : list comp * ppath * list comp => comps_eqb (locate (fst (fst c)) (snd (fst c))) (snd c)')
+    rep.checker_cmds.append(cmd)
+    rep.oblige(f'T3 correspondence Model.PathRef.locate = os.path.normpath(os.path.join(cwd, name)) on {len(litems2)} cases', not bad and not errors,
+               (f'{len(bad)} disagreements' if bad else '') + (errors[0]['log'][-400:] if errors else ''))
     base.run_oracle(rep, 'C06', 'five layouts of one document sequence build the same config', layouts, judge_layouts)
     lk = []
     for k in (1, 2, 3):
